@@ -35,6 +35,33 @@ theorem dedup'_of_nodup {l : List α} (h : l.Nodup) : dedup' l = l := by
     have : a ≠ x := fun e => h.1 (e ▸ ha)
     simpa using this
 
+theorem length_dedup'_le (l : List α) : (dedup' l).length ≤ l.length := by
+  induction l with
+  | nil => simp [dedup']
+  | cons x xs ih =>
+    simp only [dedup', List.length_cons]
+    have := List.length_filter_le (fun a => decide (a ≠ x)) (dedup' xs)
+    omega
+
+/-- the guard of the repaired `Sum.simplify` (`len(children) != len(expression.children)`) passes exactly on lists
+without repetition -/
+theorem nodup_of_length_dedup' {l : List α} (h : (dedup' l).length = l.length) : l.Nodup := by
+  induction l with
+  | nil => exact List.nodup_nil
+  | cons x xs ih =>
+    simp only [dedup', List.length_cons] at h
+    have h1 := List.length_filter_le (fun a => decide (a ≠ x)) (dedup' xs)
+    have h2 := length_dedup'_le xs
+    have hf : ((dedup' xs).filter (fun a => decide (a ≠ x))).length = (dedup' xs).length := by omega
+    have hx : x ∉ xs := by
+      intro hm
+      have hall := List.length_filter_eq_length_iff.mp hf x (mem_dedup'.mpr hm)
+      simp at hall
+    exact List.nodup_cons.mpr ⟨hx, ih (by omega)⟩
+
+theorem length_dedup'_iff {l : List α} : (dedup' l).length = l.length ↔ l.Nodup :=
+  ⟨nodup_of_length_dedup', fun h => by rw [dedup'_of_nodup h]⟩
+
 theorem mem_inter' {a : α} {l m : List α} : a ∈ inter' l m ↔ a ∈ l ∧ a ∈ m := by simp [inter']
 theorem mem_diff' {a : α} {l m : List α} : a ∈ diff' l m ↔ a ∈ l ∧ a ∉ m := by simp [diff']
 theorem subset'_iff {l m : List α} : subset' l m = true ↔ ∀ a ∈ l, a ∈ m := by simp [subset']
@@ -204,5 +231,32 @@ theorem dictVals_names_nodup (c ks : List Var) :
   apply nodup_names_of_nodup_map_base
   rw [dictVals_map_base]
   exact nodup_inter' (nodup_dedup' _) _
+
+/-! ### the guard of the repaired `Sum.simplify` -/
+
+/-- several children share a base variable -/
+def dupBase (c : List Var) : Bool := (dedup' (c.map Var.base)).length != c.length
+
+theorem dupBase_false_iff {c : List Var} : dupBase c = false ↔ (c.map (·.name)).Nodup := by
+  unfold dupBase
+  rw [bne_eq_false_iff_eq]
+  constructor
+  · intro h
+    apply nodup_names_of_nodup_map_base
+    apply nodup_of_length_dedup'
+    rw [h, List.length_map]
+  · intro h
+    rw [dedup'_of_nodup (nodup_map_base h), List.length_map]
+
+theorem dupBase_of_not_nodup {c : List Var} (h : ¬ (c.map (·.name)).Nodup) : dupBase c = true := by
+  cases hd : dupBase c with
+  | true => rfl
+  | false => exact absurd (dupBase_false_iff.mp hd) h
+
+/-- a base variable with several children: the sum is returned as it is -/
+theorem sumSimplify_dup {pop : Option Var} {c rs : List Var} (h : dupBase c = true) :
+    sumSimplify (.prob pop c []) rs = .sum (.prob pop c []) rs := by
+  unfold dupBase at h
+  simp only [sumSimplify, h, if_true]
 
 end Y0
